@@ -49,6 +49,9 @@ CHECKS["C05"]=dict(level="exploration", design="DESIGN.md §3 C05", technique="r
 CHECKS["C12"]=dict(level="exploration", design="DESIGN.md §3 C12", technique="runtime monitoring of the real resolution+planning functions chained as tier1 chains them: range-tiling and segment-alignment invariants from the property statement over lattice-biased PRNG tuples and enumerated cursor shapes; sampled accepted plans executed end-to-end in the in-process cluster",
    text="For every explored (mode, segment size, initial blocks, start, stop, finality) tuple the resolved start/hand-off and the plan tiled [start, stop) exactly (cached-output range, gated linear range), stores were planned exactly up to the hand-off, every job range was a whole segment, forked cursors produced the junction undo signal and restart, and sampled accepted plans executed to completion with reference outputs.",
    note="Graph shape fixed (output map over 0..3 stores); an error is always an acceptable planner answer; quick is a lattice-biased sample, not the exhaustive product.")
+CHECKS["C16"]=dict(level="fault_enumeration", design="DESIGN.md §3 C16", technique="runtime monitoring with fault enumeration: real RemoteWorker + real gRPC (bufconn) + real Tier2Service.ProcessRange; every single transient fault placement per job (refuse / drop with and without server cancel / completion lost), PRNG pairs and triples, real overload path; deterministic module failure at chosen blocks; differential oracle REF-LINEAR + cache audit + error-code monitor",
+   text="Every enumerated transient fault placement was absorbed (request completed, outputs == reference, clean cache), and every deterministic module failure ended the request with an error mapped to invalid-argument, after a correct prefix strictly below the failing block and nothing after the error.",
+   note="Retry back-off is real time (external library); faults are injected at the gRPC client stream boundary; reference for the failing package comes from its non-failing twin (pure programs).")
 NOT_YET = {}
 def main():
     checks=[]
